@@ -27,7 +27,7 @@ RULE = (
     "copy, deepcopy, a second object on the same list) followed by queries on the same and on the other objects; "
     "repeated calls of the frequency / parity helpers whose arguments keep identity, key set, total, shape or "
     "length while their content changes (in place or as new objects). A case is non-trivial when (history classes) "
-    "some object is queried, changed and queried again / two consecutive helper calls differ in content with a "
+    "some object is queried, changed and queried again and the initial shots contain >= 2 distinct outcomes / two consecutive helper calls differ in content with a "
     "marked qubit or >= 2 terms, (other classes) the shots contain >=2 distinct outcomes and (operator classes) the "
     "operator has >=2 terms of which at least one is not constant, or (helper classes) at least one qubit is marked; "
     "distinct = distinct canonical case strings"
@@ -51,7 +51,7 @@ DECIDING = [
 ]
 BRANCHES = ["check_parity_of_vector:no-marked-qubits", "check_parity_of_vector:marked",
             "Measurements.get_expectation_values:pair-correlation"]
-BUDGET = {"quick": (4, 30, 6000), "thorough": (16, 120, 400000)}
+BUDGET = {"quick": (4, 30, 8000), "thorough": (16, 120, 400000)}
 
 _LIB = {}
 
